@@ -43,6 +43,8 @@ func nilTestOfField(f *ssa.Function, fld *types.Var) []kit.Guard {
 }
 
 func checkC06(p *load.Program, r *kit.Report) {
+	r.Rule("FRESH-VECTOR", "every inventory vector added to a getdata message inside a loop is created in that iteration (AddInvVect keeps the pointer)", 2)
+	checkInvVectFresh(p, r, "FRESH-VECTOR")
 	r.Rule("CLAIM-IS-REQUESTED", "in handleInventory an item for which AddTxID answered true is put into the getdata message before the loop goes on (the entry is already stamped as requested from this peer)", 1)
 	checkClaimIsRequested(p, r, "CLAIM-IS-REQUESTED")
 	r.NotDecided = "linearizability under all interleavings (the lock-set result gives atomicity of each decision, not a proof about their composition); timing of the request timeout; the end-to-end inv→getdata→tx leg over a connection."
